@@ -36,5 +36,5 @@ run_demo; mut=$?
 rm -f $DIR/zz_demo_vet_test.go; rmdir $DIR 2>/dev/null
 fails=$(go test -vet=off -count=1 ./... 2>&1 | grep '^--- FAIL' | sort -u | tr '\n' ' ')
 rm -f /tmp/wt/vet-$NAME-$$.log
-if [ "$fails" != "--- FAIL: TestEnum_String (0.00s) " ]; then echo "VET $NAME suite-differs: $fails"; exit 1; fi
+if [ "$(echo "$fails" | sed -E "s/\([0-9.]+s\)//g")" != "--- FAIL: TestEnum_String  " ]; then echo "VET $NAME suite-differs: $fails"; exit 1; fi
 echo "VET $NAME ok"
